@@ -72,6 +72,11 @@ CHECKS = {
          "Every sequence up to the depth bound of vouchers from the declared grid (lane x nonce x amount x merges, plus one-field deviations: signer, submitter, time lock, secret, settle height, channel, signature), settle/collect by each party and time steps is executed on the real actor; after every step the decoded channel state must equal an independent lane model and collect payouts are checked from balance deltas.",
          "mcvm (fork of test_vm) stands in for the FVM; fake signatures bound to the signer; amounts/nonces/lanes from small alphabets; voucher extra-calls not covered.",
          "DESIGN.md §3 C16"),
+ "C20": ("model_checking",
+         "explicit-state BFS over the real init/EAM/EVM/power actors with an id-registry model in lock-step",
+         "Every history within the creation/kill budgets of Init.Exec (4 callers x 8 codes), Exec4, EAM.CreateExternal (5 init codes, two senders), a hand-assembled factory contract doing CREATE / CREATE2 (same salt twice, kill-then-redeploy, re-entrant and reverting constructors), self-destructs and plain sends that auto-create accounts, placeholders or hit reserved addresses is executed; after every step the full actor table, the Init address map, next_id, contract nonces and returned ids/addresses (checked against independently computed RLP/keccak CREATE and CREATE2 formulas) must equal the id-registry model: fresh ids only, mappings never change, only permitted creator/code pairs, failed constructors leave nothing.",
+         "mcvm mirrors ref-fvm's actor-creation rules; impersonated callers keep a fixed nonce; behaviour the property leaves open (resurrection details, EIP-3541) is adopted.",
+         "DESIGN.md §3 C20"),
 }
 NOT_YET = "check not built yet in this round (planned, see DESIGN.md §3); not claimed"
 
